@@ -1,3 +1,4 @@
+import Chartparse.Proofs.RateProofs
 import Chartparse.Proofs.TrackProofs
 import Chartparse.Proofs.InstProofs
 /-! Property theorems of C03 (statements only; helper lemmas live in `Proofs/`). -/
@@ -44,5 +45,13 @@ theorem C03_track :
 example : (complexSustain [⟨0, 0, 100⟩, ⟨0, 2, 0⟩, ⟨0, 6, 7⟩]).toOption = some (.tuple [some 100, none, some 0, none, none]) ∧
     (complexSustain [⟨0, 1, 50⟩, ⟨0, 4, 50⟩, ⟨0, 5, 9⟩]).toOption = some (.ticks 50) ∧
     (complexSustain [⟨0, 7, 33⟩, ⟨0, 5, 0⟩]).toOption = some (.ticks 33) := by decide
+
+/-- **C03 (last note end)**: absent exactly when the track has no notes; otherwise the maximum end timestamp over all
+    its notes (attained by one of them) -/
+theorem C03_last :
+    ∀ (ns : List NoteEv),
+    (lastNoteEnd ns = none ↔ ns = []) ∧
+    ∀ m, lastNoteEnd ns = some m → (∀ n ∈ ns, n.endTs ≤ m) ∧ ∃ n ∈ ns, n.endTs = m :=
+  @Chartparse.Inst.lastNoteEnd_spec
 
 end Chartparse.Props.C03
